@@ -230,7 +230,17 @@ struct Template {
         TemplateCore<Char_T, Value_T, StringStream_T> temp{content, length};
 
         if (tags_cache.IsEmpty()) {
-            temp.Parse(tags_cache);
+            // A template without a (complete) tag parses to nothing: it would be parsed again on every call, and a
+            // cache that other renders read at the same time must not be written for that. Only a result is stored.
+            Array<Tags::TagBit> tags;
+            temp.Parse(tags);
+
+            if (tags.IsEmpty()) {
+                temp.Render(tags, value, stream);
+                return stream;
+            }
+
+            tags_cache = Memory::Move(tags);
         }
 
         temp.Render(tags_cache, value, stream);
